@@ -17,7 +17,7 @@ def make(oracle_cls, *, quick, thorough, profile, cfg_kwargs=None, init_kwargs=N
         part = n // 3 if ctx.tier == "thorough" else n // 8
         if part:
             machine.run_walks(ctx, oracle_cls, n_walks=ctx.share(part), steps=steps * 2, profile=profile,
-                              cfg_kwargs={**ck, "max_frames": 10, "big_frames": True},
+                              cfg_kwargs={**ck, "max_frames": 12, "big_frames": True},
                               init_kwargs={**ik, "max_nodes": 20},
                               refusal_bias=refusal_bias, oracle_kwargs=oracle_kwargs)
             n = n - part
